@@ -253,14 +253,26 @@ def c16(tier, seed):
 
 @prop("C18")
 def c18(tier, seed):
+    chk = Check("C18", tier, seed)
+    chk.assumptions = ASSUME_API
     variants = [(4, 4)] if tier == "quick" else [(1, 4), (4, 4)]
-    return _simple_api("C18", tier, seed, "files",
-                       "T = 2..16 x non-ECB modes x {random, all-chunks-equal} plaintexts of 2T+1 chunks x seeds; for every stream the IV "
-                       "it really started from is recovered from (key, P, C) with the reference block cipher; monitors: pairwise "
-                       "distinct stream IVs, distinct header slots, all slots and the used IV change when one seed bit changes, no "
-                       "keystream block used twice (CTR/OFB), equal plaintext chunks never give equal ciphertext chunks; every "
-                       "violating observation carries a cause signature; distinct = (T, mode, plaintext kind, seed index)",
-                       500, variants=variants, crash_is_violation=False)
+    c, d, s = apiprops.run_api(chk, "C18", variants, crash_is_violation=False)
+    # one stream longer than 2^24 blocks (what a 256 MiB share of a file is to one worker): optimised build
+    c2, d2, s2 = apiprops.run_api(chk, "C18", [(4, 4)], san="fast", extra_args=["--sub", "long"], stall_s=300.0,
+                                  crash_is_violation=False)
+    _acc(c, c2)
+    d["class"] = d.get("class", 0) + d2.get("class", 0)
+    extra = dict(counters=c, distinct_by_kind=d, chunk_variants=["chunk %dB / refill %dB" % (b * 16, h * 64) for b, h in variants],
+                 long_streams=dict(streams=c2.get("long_streams", 0), blocks_each=c2.get("keystream_blocks_checked", 0) // max(1, c2.get("long_streams", 0))))
+    return chk.finish(c.get("files", 0), d.get("class", 0),
+                      "T = 2..16 x non-ECB modes x {random, all-chunks-equal} plaintexts of 2T+1 chunks x seeds; for every stream the IV "
+                      "it really started from is recovered from (key, P, C) with the reference block cipher; monitors: pairwise "
+                      "distinct stream IVs, distinct header slots, all slots and the used IV change when one seed bit changes, no "
+                      "keystream block used twice (CTR/OFB), equal plaintext chunks never give equal ciphertext chunks; every "
+                      "violating observation carries a cause signature; plus CTR/OFB mode objects driven for 2^24+8192 blocks of "
+                      "zero plaintext (random IVs and IVs about to carry): the first 4096 keystream blocks never return, Brent "
+                      "cycle search, distances 2^8 and 2^16; distinct = (T, mode, plaintext kind, seed index) + long streams",
+                      s + s2[:2], extra, min_evaluations=500)
 
 
 @prop("C15")
